@@ -548,6 +548,27 @@ def oracle_conv(ctx, budget):
         if not np.array_equal(out, np.array(exp)):
             ctx.fail('padded_convolve:value', f'padded_convolve(N={n}, M={m}, mode={mode!r}) differs from the centred direct convolution of the padded data', case)
             found += 1
+    # C18_convolve_index_modes_linear on the implementation: exact integer data, enumerated sizes, the four
+    # index-function modes; a private generator so that the streams above and below are unchanged
+    import random as _random
+    lrng = _random.Random(18180)
+    for n in range(1, 9 if budget == 1 else 17):
+        for m in sorted({1, 2, 3, n, n + 1, 2 * n + 1}):
+            for mode in ['reflect', 'edge', 'symmetric', 'wrap']:
+                y1 = np.array([lrng.randint(-50, 50) for _ in range(n)], dtype=np.int64)
+                y2 = np.array([lrng.randint(-50, 50) for _ in range(n)], dtype=np.int64)
+                k = np.array([lrng.randint(-3, 9) for _ in range(m)], dtype=np.int64)
+                a, b = lrng.randint(-4, 4), lrng.randint(-4, 4)
+                r1, r2, r = (call(utils.padded_convolve, v, k, mode=mode) for v in (y1, y2, a * y1 + b * y2))
+                ctx.case(('o-conv-lin', n, m, mode), nontrivial=True, kind='oracle:conv:linear')
+                case = {'kind': 'conv', 'data': (a * y1 + b * y2).tolist(), 'kernel': k.tolist(), 'mode': mode,
+                        'y1': y1.tolist(), 'y2': y2.tolist(), 'a': a, 'b': b}
+                sts = {r1[0], r2[0], r[0]}
+                if sts == {'err'}:
+                    continue
+                if sts != {'ok'} or not np.array_equal(np.asarray(r[1]), a * np.asarray(r1[1]) + b * np.asarray(r2[1])):
+                    ctx.fail('padded_convolve:not-linear', f'padded_convolve(N={n}, M={m}, mode={mode!r}) of {a}*y1 + {b}*y2 is not {a}*out1 + {b}*out2', case)
+                    found += 1
     return found
 
 
